@@ -97,7 +97,7 @@ func (c *Ctx) nodeEntryPoints(rounds int) {
 		try("meshops.SmoothNormalsNodeData{}", meshops.SmoothNormalsNodeData{}.Process)
 		try("meshops.FlatNormalsNodeData", meshops.FlatNormalsNodeData{Mesh: mv(m)}.Process)
 		try("meshops.FlatNormalsNodeData{}", meshops.FlatNormalsNodeData{}.Process)
-		if m.Topology() != modeling.LineTopology && m.Topology() != modeling.LineLoopTopology {
+		if !(m.Topology() == modeling.LineLoopTopology && m.Indices().Len() == 0) { // empty loop: documented runtime panic
 			try("meshops.LaplacianSmoothNodeData", meshops.LaplacianSmoothNodeData{Mesh: mv(m), Attribute: sv(c.pickV3Attr(m)), Iterations: iv(c.Rng.Intn(3)), SmoothingFactor: fv(0.5)}.Process)
 		}
 		try("meshops.CropAttribute3DNodeData", meshops.CropAttribute3DNodeData{Mesh: mv(m), Attribute: sv(c.pickV3Attr(m)),
